@@ -176,6 +176,63 @@ def _judge_clone(it: Interp, orig: int, res) -> List[str]:
     return probs
 
 
+def _judge_cfr(it: Interp, arg: int, p) -> List[str]:
+    """clone_from_root's answer: the returned node's ancestor chain mirrors the receiver's chain kind by kind and side by
+    side in freshly built nodes, nothing is stored to the original, no tracked clone is left behind."""
+    probs: List[str] = []
+    res = p.value
+    if not isinstance(res, Node):
+        probs.append(f"returns {res!r}")
+    else:
+        # walk up in lock step: clone chain must mirror the original chain (same kinds, same sides, fresh nodes)
+        o, c = arg, res.cid
+        steps = 0
+        while True:
+            oc, cc = it.cells[o], it.cells[c]
+            if c == o or not (cc.fresh or cc.mirror is not None):
+                probs.append("a node of the returned tree is a node of the original tree")
+                break
+            if it.kinds_of(cc) != it.kinds_of(oc):
+                probs.append(f"level {steps}: clone is a {sorted(map(SHORT, it.kinds_of(cc)))}, original a "
+                             f"{sorted(map(SHORT, it.kinds_of(oc)))}: not the copy of the receiver")
+                break
+            for f in ("value", "identifier"):
+                if f in oc.entry and cc.cur.get(f, oc.entry[f]) is not oc.entry[f]:
+                    ov, cv = oc.entry[f], cc.cur.get(f)
+                    if not (isinstance(ov, Num) and isinstance(cv, Num) and ov.term == cv.term):
+                        probs.append(f"level {steps}: payload {f} differs")
+            op = oc.entry.get("parent", _MISSING)
+            cp = cc.cur.get("parent", _MISSING)
+            if not isinstance(op, Node):
+                if isinstance(cp, Node):
+                    probs.append("copy of the root has a parent")
+                break
+            if not isinstance(cp, Node):
+                probs.append(f"level {steps}: returned node is not embedded in a copy of the whole tree")
+                break
+            oside = "left" if isinstance(it.cells[op.cid].entry.get("left"), Node) and it.cells[op.cid].entry["left"].cid == o else "right"
+            cv = it.cells[cp.cid].cur.get(oside, _MISSING)
+            if not (isinstance(cv, Node) and cv.cid == c):
+                probs.append(f"level {steps}: copy is not the {oside} child of its parent (position differs)")
+                break
+            o, c = op.cid, cp.cid
+            steps += 1
+            if steps > 8:
+                break
+    ac = it.cells[arg]
+    for f, want in (("cloned_node", None), ):
+        v = ac.cur.get(f, _MISSING)
+        if v is not _MISSING and v is not None:
+            probs.append(f"receiver keeps {f} = {v!r} after the call (stale state for the next call)")
+    for e in it.events:
+        if e[0] == "store" and not (it.cells[e[1]].fresh or it.cells[e[1]].mirror is not None) \
+                and e[2] in ("left", "right", "parent", "value", "identifier", "id"):
+            if e[3] is _MISSING or e[3] != e[4]:
+                probs.append(f"stores to .{e[2]} of the original tree")
+                break
+    return probs
+
+
 def run_r4(chk: Check, prog: Program, S: Summaries) -> None:
     chk.rule("C13.R4", "clone_from_root() returns the copy of the receiver at the same position of a complete copy and "
              "resets its tracking state", minimum=20)
@@ -243,61 +300,94 @@ def run_r4(chk: Check, prog: Program, S: Summaries) -> None:
         if p.outcome == "raise":
             chk.fail("C13.R4", key + ":raise", label, f"raises {p.exc}", witness={"path": p.cond[:400]}, where=m.where)
             return
-        probs: List[str] = []
-        res = p.value
-        if not isinstance(res, Node):
-            probs.append(f"returns {res!r}")
-        else:
-            # walk up in lock step: clone chain must mirror the original chain (same kinds, same sides, fresh nodes)
-            o, c = arg, res.cid
-            steps = 0
-            while True:
-                oc, cc = it.cells[o], it.cells[c]
-                if c == o or not (cc.fresh or cc.mirror is not None):
-                    probs.append("a node of the returned tree is a node of the original tree")
-                    break
-                if it.kinds_of(cc) != it.kinds_of(oc):
-                    probs.append(f"level {steps}: clone is a {sorted(map(SHORT, it.kinds_of(cc)))}, original a "
-                                 f"{sorted(map(SHORT, it.kinds_of(oc)))}: not the copy of the receiver")
-                    break
-                for f in ("value", "identifier"):
-                    if f in oc.entry and cc.cur.get(f, oc.entry[f]) is not oc.entry[f]:
-                        ov, cv = oc.entry[f], cc.cur.get(f)
-                        if not (isinstance(ov, Num) and isinstance(cv, Num) and ov.term == cv.term):
-                            probs.append(f"level {steps}: payload {f} differs")
-                op = oc.entry.get("parent", _MISSING)
-                cp = cc.cur.get("parent", _MISSING)
-                if not isinstance(op, Node):
-                    if isinstance(cp, Node):
-                        probs.append("copy of the root has a parent")
-                    break
-                if not isinstance(cp, Node):
-                    probs.append(f"level {steps}: returned node is not embedded in a copy of the whole tree")
-                    break
-                oside = "left" if isinstance(it.cells[op.cid].entry.get("left"), Node) and it.cells[op.cid].entry["left"].cid == o else "right"
-                cv = it.cells[cp.cid].cur.get(oside, _MISSING)
-                if not (isinstance(cv, Node) and cv.cid == c):
-                    probs.append(f"level {steps}: copy is not the {oside} child of its parent (position differs)")
-                    break
-                o, c = op.cid, cp.cid
-                steps += 1
-                if steps > 8:
-                    break
-        ac = it.cells[arg]
-        for f, want in (("cloned_node", None), ):
-            v = ac.cur.get(f, _MISSING)
-            if v is not _MISSING and v is not None:
-                probs.append(f"receiver keeps {f} = {v!r} after the call (stale state for the next call)")
-        for e in it.events:
-            if e[0] == "store" and not (it.cells[e[1]].fresh or it.cells[e[1]].mirror is not None) \
-                    and e[2] in ("left", "right", "parent", "value", "identifier", "id"):
-                if e[3] is _MISSING or e[3] != e[4]:
-                    probs.append(f"stores to .{e[2]} of the original tree")
-                    break
+        probs = _judge_cfr(it, arg, p)
         chk.verdict(not probs, "C13.R4", key, label, "; ".join(probs), witness={"path": p.cond[:400], "problems": probs},
                     where=m.where)
 
     explore(prog, body, cfg, max_paths=12000, sink=sink)
+
+
+def _small_trees(depth: int):
+    """Every tree of at most `depth` levels below the root over a reduced kind universe: leaves Constant/Variable, unary
+    Negate, binary Add/Multiply.  Two binary kinds and two leaf kinds are what it takes to have both equal and different
+    kind chains among cousins."""
+    if depth == 0:
+        return [("const", "k"), ("var", "x")]
+    sub = _small_trees(depth - 1)
+    out = [("const", "k"), ("var", "x")]
+    out += [("Negate", t) for t in sub]
+    for k in ("Add", "Multiply"):
+        out += [(k, a, b) for a in sub for b in sub]
+    return out
+
+
+def _positions(spec, path=()):
+    yield path
+    if spec[0] in ("const", "var"):
+        return
+    for i, ch in enumerate(spec[1:]):
+        if isinstance(ch, tuple):
+            yield from _positions(ch, path + (i,))
+
+
+def _spec_str(spec) -> str:
+    if spec[0] == "const":
+        return "k"
+    if spec[0] == "var":
+        return "x"
+    if len(spec) == 2:
+        return f"-({_spec_str(spec[1])})"
+    return f"({_spec_str(spec[1])} {'+' if spec[0] == 'Add' else '*'} {_spec_str(spec[2])})"
+
+
+def run_r5(chk: Check, prog: Program, S: Summaries) -> None:
+    """clone_from_root with the real clone() on every node - no induction hypothesis, so side effects of cloning the
+    subtrees beside the path (tracking state kept anywhere, look-ups by a key that is not unique) are interpreted too."""
+    from .c08 import Pat
+    chk.rule("C13.R5", "clone_from_root() on every node of every small tree, real clone() everywhere: the copy of that very "
+             "node, at the same position", minimum=200)
+    m = prog.func("expressions", "MathExpression.clone_from_root")
+    depth = 2 if chk.tier == "quick" else 3
+    trees = _small_trees(2)
+    if chk.tier != "quick":
+        # depth 3 only along products/sums of depth-2 subtrees that have an inner node on both sides (cousins of cousins)
+        d1 = [t for t in _small_trees(1) if t[0] not in ("const", "var")]
+        trees = trees + [(k, (k2, a, b), (k2, c, d)) for k in ("Add",) for k2 in ("Multiply",)
+                         for a in d1 for b in d1[:3] for c in d1[:3] for d in d1[:2]]
+    hooks = {k: v for k, v in S.hooks().items() if k not in CLONE_QUALS and "clone" not in k}
+    n = 0
+    for spec in trees:
+        for pos in _positions(spec):
+            def body(it: Interp, spec=spec, pos=pos):
+                pat = Pat(it)
+                root = pat.build(spec)
+                it._set_entry(it.cells[root.cid], "parent", None)
+                cur = root
+                for i in pos:
+                    cell = it.cells[cur.cid]
+                    if cell.entry.get("left") is None:
+                        cur = cell.entry["right"]
+                    else:
+                        cur = cell.entry["left"] if i == 0 else cell.entry["right"]
+                it.arg = cur
+                return it.call_function(m, [cur], {})
+            for p in explore(prog, body, {"max_updepth": 0, "hooks": hooks, "max_inline": 80, "max_steps": 60000}, max_paths=64):
+                n += 1
+                it = p.interp
+                label = f"clone_from_root on the node at {'/'.join('LR'[i] for i in pos) or 'root'} of {_spec_str(spec)} :: {p.cond[-120:]}"
+                key = "C13.R5:MathExpression.clone_from_root"
+                if p.outcome == "bound":
+                    chk.undecided("C13.R5", key + ":bound", label, p.note, m.where)
+                    continue
+                if p.outcome == "raise":
+                    chk.fail("C13.R5", key + ":raise", label, f"raises {p.exc}", witness={"tree": _spec_str(spec), "position": list(pos)},
+                             where=m.where)
+                    continue
+                probs = _judge_cfr(it, it.arg.cid, p)
+                chk.verdict(not probs, "C13.R5", key, label, "; ".join(probs),
+                            witness={"tree": _spec_str(spec), "position": "/".join("LR"[i] for i in pos) or "root", "problems": probs},
+                            where=m.where)
+    chk.analysed["clone_from_root_small_tree_runs"] = n
 
 
 def run(chk: Check) -> None:
@@ -314,12 +404,15 @@ def run(chk: Check) -> None:
         "nothing to the original; (R4) clone_from_root(), interpreted with the real clone() along the path from the "
         "root to the receiver (chains of up to 2 ancestors, every kind and side) and the summary elsewhere, returns a "
         "node whose ancestor chain mirrors the receiver's chain kind by kind and side by side in freshly built nodes, "
-        "and leaves no tracked clone behind. Not decided: clone_from_root(other_node); equality of printed/evaluated "
+        "and leaves no tracked clone behind; (R5) clone_from_root() with the real clone() on every node (no induction "
+        "hypothesis) for every node of every tree of depth <= 2 over {Constant, Variable, Negate, Add, Multiply} returns "
+        "the copy of that very node at the same position. Not decided: clone_from_root(other_node); equality of printed/evaluated "
         "results (follows from shape + payload equality by C04/C05 clauses).")
     chk.assumptions = ["W for the input tree; unary operand side is the one recorded in child_on_left",
                        "induction hypothesis: clone() of a proper subtree is a correct deep copy"]
     run_r1(chk, prog)
     run_r2(chk, prog, S)
     run_r4(chk, prog, S)
+    run_r5(chk, prog, S)
     chk.exhaustive = True
     chk.max_undecided = 0
